@@ -32,8 +32,8 @@ class Repeat(Family):
     doc = "process.repeat on symbolic x (strictly increasing), y; r concrete"
 
     def configs(self, tier):
-        rs = range(1, 7) if tier == "quick" else range(1, 13)
-        Ls = (2, 3, 4) if tier == "quick" else (2, 3, 4, 5)
+        rs = range(1, 9) if tier == "quick" else range(1, 13)
+        Ls = (2, 3, 4, 5) if tier == "quick" else (2, 3, 4, 5, 6)
         return [{"L": L, "r": r, "container": ("list" if (L + r) % 3 == 0 else "array")} for L in Ls for r in rs]
 
     def run(self, ctx, inst, L, r, container):
@@ -58,7 +58,7 @@ class Compose(Family):
     doc = "repeat(a) then repeat(b) equals repeat(a*b), all factor pairs with a*b <= bound"
 
     def configs(self, tier):
-        bound = 6 if tier == "quick" else 12
+        bound = 8 if tier == "quick" else 12
         return [{"L": L, "a": a, "b": b} for L in (2, 3) for a in range(1, bound + 1) for b in range(1, bound + 1)
                 if a * b <= bound and (tier != "quick" or L == 3 or a * b <= 4)]
 
@@ -121,9 +121,9 @@ META = {
     "explanation": "process.repeat / Weaver.repeat executed on symbolic x (strictly increasing) and y; every element of "
                    "the result is compared with the periodic-extension definition by z3 (linear real arithmetic; most "
                    "claims close syntactically). The repetition count is concrete and enumerated.",
-    "bounds": {"quick": "series of 2..4 points, r in 1..6, factor pairs with a*b <= 6, list and ndarray inputs, "
+    "bounds": {"quick": "series of 2..5 points, r in 1..8, factor pairs with a*b <= 8, list and ndarray inputs, "
                         "integer-typed abscissae (3 concrete grids)",
-               "thorough": "series of 2..5 points, r in 1..12, factor pairs with a*b <= 12"},
+               "thorough": "series of 2..6 points, r in 1..12, factor pairs with a*b <= 12"},
     "outside": ["longer series", "float rounding of the accumulated offsets"],
     "assumptions": ["x strictly increasing, at least 2 points"],
     "stubs": [],
